@@ -35,7 +35,7 @@ def histories(rnd, count, nops, maxn):
         alg = rnd.choice([1, 2, 3])
         width = 4 if alg == 3 else 2
         place = rnd.choice([0, 1, 7, 100])
-        aux = rnd.choice([9999, 0, 1, 2, 3, n - 1 if n > 1 else 1, n, n + 1, rnd.randint(0, n + 1)])
+        aux = rnd.choice([9999, 9998, 0, 1, 2, 3, n - 1 if n > 1 else 1, n, n + 1, rnd.randint(0, n + 1)])
         msize = place + width + n + 3
         c = 'cfg %d %d %d %d %d' % (msize, place, n, alg, aux)
         sc = mbase(rnd, c) + [c]
